@@ -50,6 +50,8 @@ def designs(tier):
     for w in (1, 2):
         out.append({'d': 'swap', 'w': w})
     out.append({'d': 'regmem'})
+    out.append({'d': 'twomem'})
+    out.append({'d': 'bidirseq'})
     out.append({'d': 'fsmreg'})
     out.append({'d': 'delayline', 'delay': 3, 'w': 1})
     out.append({'d': 'shiftbidir', 'depth': 3, 'w': 1})
@@ -91,7 +93,7 @@ def shards(tier):
 
 
 def cost(d):
-    return {'uart_tx': 1000, 'seqg4': 50, 'seqg': 20, 'dualmem': 100, 'regmem': 30}.get(d['d'], 5) * d.get('k', 1)
+    return {'uart_tx': 1000, 'seqg4': 50, 'seqg': 20, 'dualmem': 100, 'regmem': 30, 'twomem': 30}.get(d['d'], 5) * d.get('k', 1)
 
 
 def build(d, sub=None):
@@ -135,6 +137,24 @@ def build(d, sub=None):
         py4hw.SynchronousMemory(hw, 'mem', q, wa, wr, rd, q)
         q2 = hw.wire('q2')
         py4hw.Reg(hw, 'r2', rd, q2)
+    elif k == 'twomem':
+        # two independent memories of one class in one design: one is written, the other one is read at the same address
+        q, rd0, rd1 = hw.wire('q'), hw.wire('rd0'), hw.wire('rd1')
+        x, wa, wr = I('x'), I('wa'), I('wr')
+        py4hw.Reg(hw, 'r', x, q)
+        py4hw.SynchronousMemory(hw, 'mem0', wa, wa, wr, rd0, x)
+        py4hw.SynchronousMemory(hw, 'mem1', wa, q, hw.wire('never'), rd1, q)
+        q2 = hw.wire('q2')
+        py4hw.Xor2(hw, 'xr', rd0, rd1, hw.wire('xr'))
+        py4hw.Reg(hw, 'r2', hw._wires['xr'], q2)
+    elif k == 'bidirseq':
+        # a bidirectional wire driven by a sequential block (prepare) and by an in/out buffer; a combinational reader
+        # of the pad (the buffer's pin output) feeds a register
+        bd, pin, q = hw.bidir_wire('bd'), hw.wire('pin'), hw.wire('q')
+        pout, poe = I('pout'), I('poe')
+        py4hw.Sequence(hw, 'seqbd', [0, 1, 1, 0, 1], bd)
+        py4hw.BidirBuf(hw, 'iobuf', pin, pout, poe, bd)
+        py4hw.Reg(hw, 'r', pin, q)
     elif k == 'dualmem':
         q, rda, rdb, dd = hw.wire('q'), hw.wire('rda'), hw.wire('rdb'), hw.wire('dd')
         x, wa, wr = I('x'), I('wa'), I('wr')
